@@ -1,12 +1,14 @@
 package main
 
 import (
-	crand "crypto/rand"
+	"bytes"
 	"crypto/elliptic"
+	crand "crypto/rand"
 	"fmt"
 	"math/big"
 	"os"
 	"runtime"
+	"strings"
 
 	"github.com/cloudflare/circl/oprf"
 	"github.com/cloudflare/pat-go/ecdsa"
@@ -49,6 +51,11 @@ func journalCase(fn string, in []byte) {
 }
 
 func measure(c *h.Ctx, t target, cat_ string, in []byte) {
+	if in != nil {
+		// an exact-capacity copy: a read past the end of the message must fault, not silently read the spare
+		// capacity of a longer buffer the message was cut from
+		in = append(make([]byte, 0, len(in)), in...)
+	}
 	journalCase(t.name, in)
 	var ms0, ms1 runtime.MemStats
 	runtime.ReadMemStats(&ms0)
@@ -165,7 +172,9 @@ func runC03(c *h.Ctx) {
 	tok1, _ := st1.FinalizeToken(resp1)
 	tok2, _ := st2.FinalizeToken(resp2)
 	toks5, _ := st5.FinalizeTokens(resp5)
-	env := newT3(c, 0, rnd(c, 32), map[string][]byte{"origin.example": rnd(c, 48), "": rnd(c, 48)})
+	name32, name64 := strings.Repeat("a", 32), strings.Repeat("b.example.", 7)[:64]
+	env := newT3(c, 0, rnd(c, 32), map[string][]byte{"origin.example": rnd(c, 48), "": rnd(c, 48), name32: rnd(c, 48), name64: rnd(c, 48)})
+	is7 := newC07Issuer(c, 0, []string{"origin.example", "", name32, name64})
 	client3 := type3.NewRateLimitedClientFromSecret(rnd(c, 48))
 	blind3 := rnd(c, 48)
 	st3, _ := env.request(client3, challenge, rnd(c, 32), blind3, "origin.example")
@@ -177,6 +186,9 @@ func runC03(c *h.Ctx) {
 	}
 	tok3, _ := st3.FinalizeToken(resp3)
 	inner := type3.VerifNewInner(7, rnd(c, 256), type3.VerifPadOriginName("origin.example")).Marshal()
+	blinded0 := cat([]byte{0}, rnd(c, 255)) // below every modulus
+	inner0 := type3.VerifNewInner(is7.env.tokenKeyID[31], blinded0, type3.VerifPadOriginName("origin.example")).Marshal()
+	inner32 := type3.VerifNewInner(is7.env.tokenKeyID[31], blinded0, []byte(name32)).Marshal() // padded origin without any zero byte
 	breq, _ := batched.BatchedClient{}.CreateTokenRequest([]tokens.TokenRequestWithDetails{st1.Request(), st2.Request(), st1.Request()})
 	bissuer := batched.NewBasicBatchedIssuer(wrap1{iss1}, wrap2{iss2})
 	bresp, _ := bissuer.EvaluateBatch(breq)
@@ -240,6 +252,14 @@ func runC03(c *h.Ctx) {
 			return att.VerifyRequest(*r, blind3, st3.ClientKey(), []byte("anon")) == nil
 		}},
 		{name: "type3.Issuer.Evaluate", seeds: [][]byte{req3b}, fe: "fe_eval3", f: func(in []byte) bool { _, _, e := env.issuer.Evaluate(in); return e == nil }},
+		{name: "type3.Issuer.Evaluate(authentic envelope, inner plaintext)", seeds: [][]byte{inner0, inner32}, f: func(in []byte) bool {
+			wire, err := craftType3(c, is7, client3, in)
+			if err != nil {
+				return false
+			}
+			_, _, e := is7.env.issuer.Evaluate(wire)
+			return e == nil
+		}},
 		{name: "type3.InnerTokenRequest.Unmarshal", seeds: [][]byte{inner}, f: func(in []byte) bool { return new(type3.InnerTokenRequest).Unmarshal(in) }},
 		{name: "type3.UnmarshalEncapKey", seeds: [][]byte{env.nameKey.Marshal()}, f: func(in []byte) bool { _, e := type3.UnmarshalEncapKey(in); return e == nil }},
 		{name: "batched.Request.Unmarshal+EvaluateBatch", seeds: [][]byte{breq.Marshal()}, f: func(in []byte) bool {
@@ -316,6 +336,53 @@ func runC03(c *h.Ctx) {
 	for n := 0; n <= 34; n++ { // inner request with padded origin of n bytes; all-zero and empty origins
 		extra["type3.InnerTokenRequest.Unmarshal"] = append(extra["type3.InnerTokenRequest.Unmarshal"], cat([]byte{7}, rnd(c, 256), u16pfx(make([]byte, n))))
 	}
+	for n := 0; n <= 70; n++ { // authentic requests whose padded origin has n bytes: all non-zero, all zero, registered names
+		nz := bytes.Repeat([]byte{'a'}, n)
+		for _, po := range [][]byte{nz, make([]byte, n), cat([]byte(name32), make([]byte, n)), []byte(name64)[:minInt(n, 64)]} {
+			extra["type3.Issuer.Evaluate(authentic envelope, inner plaintext)"] = append(extra["type3.Issuer.Evaluate(authentic envelope, inner plaintext)"],
+				cat([]byte{is7.env.tokenKeyID[31]}, blinded0, u16pfx(po)))
+		}
+	}
+	for _, nm := range []string{name32, name64, name32[:31], name64[:33], ""} { // honest client requests, names around the padding block size
+		if stn, err := env.request(client3, challenge, rnd(c, 32), rnd(c, 48), nm); err == nil {
+			extra["type3.Issuer.Evaluate"] = append(extra["type3.Issuer.Evaluate"], stn.Request().Marshal())
+		}
+	}
+	// every varint length prefix re-encoded in each wider (non-minimal) form, with the body complete and cut short by 1..9 bytes
+	reframe := func(name string, m []byte, off int) {
+		v, n := quicwire.ConsumeVarint(m[off:])
+		if n <= 0 {
+			return
+		}
+		body := m[off+n:]
+		for _, w := range []int{2, 4, 8} {
+			if w < n {
+				continue
+			}
+			pfx := make([]byte, w)
+			for i, x := 0, v; i < w; i++ {
+				pfx[w-1-i] = byte(x)
+				x >>= 8
+			}
+			pfx[0] |= map[int]byte{2: 0x40, 4: 0x80, 8: 0xc0}[w]
+			for cut := 0; cut <= 9 && cut <= len(body); cut++ {
+				extra[name] = append(extra[name], cat(m[:off], pfx, body[:len(body)-cut]))
+			}
+			for _, tiny := range [][]byte{nil, {0}, {0, 1}, {1, 2, 3}} {
+				small := append([]byte{}, pfx...)
+				for i := 1; i < w; i++ {
+					small[i] = 0
+				}
+				small[w-1] = byte(len(tiny) + 1 + w%3)
+				extra[name] = append(extra[name], cat(m[:off], small, tiny))
+			}
+		}
+	}
+	reframe("batched.Request.Unmarshal+EvaluateBatch", breq.Marshal(), 0)
+	reframe("batched.UnmarshalBatchedTokenResponses", bresp, 0)
+	reframe("type5.Request.Unmarshal+Evaluate", st5.Request().Marshal(), 3)
+	reframe("type5.FinalizeTokens", resp5, 0)
+	reframe("quicwire.ConsumeVarintBytes", quicwire.AppendVarintBytes(nil, rnd(c, 70)), 0)
 	// DER-consuming targets: every element of the seed's TLV tree emptied / shortened / extended with ALL enclosing
 	// lengths re-encoded consistently (structurally valid DER with degenerate leaves)
 	for _, t := range targets {
